@@ -236,6 +236,8 @@ fn main() {
             reg3!(jobs, "decode", 12000, strat_dec, body_dec; [0, 1, 2, 3, 7, 8, 9, 12, 16, 31, 32, 60, 63, 64, 65, 72, 96, 127, 128, 129, 160, 190, 192, 250, 255, 256, 257, 320, 384, 512, 535, 1024]);
             reg3!(jobs, "encode", 300, strat_enc, body_enc; [4160, 65600]);
             reg3!(jobs, "decode", 600, strat_dec, body_dec; [4160, 65600]);
+            reg3!(jobs, "encode", 400, strat_enc, body_enc; [24, 48, 56, 80, 88, 104, 112, 120, 136, 144, 152, 168, 176, 184, 208, 216, 224, 232, 240, 248, 1088, 1536, 2112]);
+            reg3!(jobs, "decode", 800, strat_dec, body_dec; [24, 48, 56, 80, 88, 104, 112, 120, 136, 144, 152, 168, 176, 184, 208, 216, 224, 232, 240, 248, 1088, 1536, 2112]);
             reg3_enum!(jobs, "decode_short_strings", enum_dec, body_dec; [0, 1, 2, 3, 7, 8, 9, 12, 16, 60, 63, 64, 65, 127]);
         },
         |_| Map::new(),
